@@ -438,7 +438,8 @@ func (r *inst) goStmt(x *ast.GoStmt) []ast.Stmt {
 	s := r.site(x)
 	*r.sites = append(*r.sites, Site{s, "spawn"})
 	pre = append(pre, &ast.AssignStmt{Lhs: []ast.Expr{gid}, Tok: token.DEFINE, Rhs: []ast.Expr{r.hook("Spawn", str(s))}})
-	return []ast.Stmt{&ast.BlockStmt{List: append(pre, x)}}
+	// the new goroutine may run before its parent takes another step: a decision point right after the go statement
+	return []ast.Stmt{&ast.BlockStmt{List: append(append(pre, x), r.yield(x, "spawned"))}}
 }
 
 func (r *inst) wrap(s ast.Stmt, f facts) []ast.Stmt {
